@@ -51,6 +51,12 @@ def gen_case(streams, tier):
     script = gen.gen_script(g, cfg)
     ncyc = streams['inputs'].randint(2, 8)
     seq = [g.choice(pool) for _ in range(g.choice([1, 1, 2, 3, 4]))]
+    if kind == 'synth' and g.random() < 0.2:
+        # the gate-level lowerings applied to each other's results, back and forth
+        seq = [g.choice(GATE_PASSES) for _ in range(g.choice([3, 4, 5]))]
+        if g.random() < 0.5:
+            seq = [GATE_PASSES[(i + (seq[0] == GATE_PASSES[0])) % len(GATE_PASSES)]
+                   for i in range(len(seq))]
     return {
         'prop': ID, 'kind': kind, 'script': script, 'passes': seq,
         'cycles': gen.gen_inputs(streams['inputs'], script, ncyc),
